@@ -202,6 +202,8 @@ func (v *inputFieldDefaultInjectionVisitor) jsonWalker(fieldType int, defaultVal
 		if err != nil {
 			return
 		}
+		// i is the position of the element: it advances for every element, also for the ones skipped below
+		defer func() { i++ }()
 		if listOfList && dataType == jsonparser.Array {
 			newVal, replaced, err := v.processObjectOrListInput(typeDoc.Types[fieldType].OfType, value, typeDoc)
 			if err != nil {
@@ -228,10 +230,7 @@ func (v *inputFieldDefaultInjectionVisitor) jsonWalker(fieldType int, defaultVal
 				}
 				*finalValueReplaced = true
 			}
-		} else {
-			return
 		}
-		i++
 	}
 
 }
